@@ -33,6 +33,7 @@ INTS_MORE = [999, 1000, 12345, 99999, 4503599627, 99999999999]      # 11 integer
 SPECIAL_F = [0, 1, 4, 5, 10, 49, 50, 51, 100, 125, 250, 449, 450, 499, 500, 501, 750, 1000, 1250, 1449, 1450, 1500, 2500,
              2675, 4444, 4445, 4449, 4450, 4500, 4999, 5000, 5001, 5500, 6750, 7500, 8750, 9000, 9499, 9500, 9949, 9950,
              9994, 9995, 9999]
+QUICK_F = [0, 1, 5, 50, 125, 500, 1250, 2675, 4445, 4450, 4500, 4999, 5000, 5001, 9500, 9950, 9995, 9999]
 # magnitudes that repr() prints in exponent notation, ties among them
 TINY = ['5e-05', '0.00005', '1.25e-07', '4.5e-06', '5e-07', '0.000015', '0.0000449', '9.99995e-05', '1.5e-300', '5e-10',
         '0.000123456789012345', '1.23456789012345e-05', '9.5e-05', '2.5e-05', '1e-07']
@@ -413,7 +414,7 @@ def cell_value(text, form):
     return int(text) if form == 'int' else {'$f': repr(float(text))}
 
 
-CELL_ROWS = list(range(1, 31)) + [99, 100, 101, 102, 999, 1000, 1001, 1002, 1500]
+CELL_ROWS = list(range(1, 15)) + [99, 100, 101, 102, 999, 1000, 1001, 1002, 1500]
 NUM_COLS = ['A', 'A', 'A', 'Z', 'AA', 'ZZ', 'AAA']          # 1, 26, 27, 702, 703
 FORM_COLS = {'round': 'H', 'roundup': 'I', 'rounddown': 'J', 'pct': 'K', 'round_pct': 'L'}
 
@@ -709,31 +710,36 @@ def run(tier='quick', seed=0):
 
     # ---- 5  literals through the pipeline ------------------------------------------------------------------------
     t0 = time.time()
-    lit_ints = INTS_QUICK if thorough else [0, 2, 7, 123]
-    pts5 = [(t, n) for (t, f, n) in grid_points(lit_ints, fs=SPECIAL_F) if f == 'float']
+    lit_ints = INTS_QUICK if thorough else [0, 2, 123]
+    lit_fs = SPECIAL_F if thorough else QUICK_F
+    pts5 = [(t, n) for (t, f, n) in grid_points(lit_ints, fs=lit_fs) if f == 'float']
     allgrid = [(grid_text(sg, ip, F, 4), n) for sg in (1, -1) for ip in INTS_QUICK for F in range(10000) for n in DIGITS
                if not (sg < 0 and ip == 0 and F == 0)]
-    pts5 += rng.sample(allgrid, 30000 if thorough else 1500)
-    pts5 += [(t, n) for (t, f, n) in seed_triples(rng, 3000 if thorough else 250)]
+    pts5 += rng.sample(allgrid, 12000 if thorough else 300)
+    pts5 += [(t, n) for (t, f, n) in seed_triples(rng, 1000 if thorough else 40)]
     jobs5 = literal_jobs(pts5, rng)
     a_lit, a_pct = Acc(), Acc()
-    for accs in _pool_map(_literal_task, chunks(jobs5, 400)):
+    # Excel itself spells very small constants with an upper-case exponent marker (1E-20); a separate tiny batch
+    upper = [{'formula': '=ROUND(1E-20,2)', 'op': 'round', 'text': '1e-20', 'n': 2},
+             {'formula': '=ROUNDUP(1.5E-21,7)', 'op': 'roundup', 'text': '1.5e-21', 'n': 7},
+             {'formula': '=2.5E-25%', 'op': 'pct', 'text': '2.5e-25', 'n': 0}]
+    for accs in _pool_map(_literal_task, [upper] + chunks(jobs5, 400 if thorough else 120)):
         a_lit.merge(accs['main'])
         a_pct.merge(accs['percent'])
     checks.append(_mk('C16.monitor.literals',
-                      f'{len(pts5)} (decimal, digit count) points: the tie/carry fractions {SPECIAL_F} x integer parts {lit_ints} x both signs '
+                      f'{len(pts5)} (decimal, digit count) points: the tie/carry fractions {lit_fs} x integer parts {lit_ints} x both signs '
                       'x -3..6 exhaustively, a seeded sample of the full 4-digit grid, 15-significant-digit / tie / tiny seeds; each as '
                       '=ROUND(lit,n), =ROUNDUP(lit,n), =ROUNDDOWN(lit,n) with the literal spelled canonically, with trailing zeros, as '
                       'coefficient+exponent (2675e-3, 15e2, 5e-05) or positionally (0.00005); some with blanks around the arguments, '
-                      'some with the digit count of ROUNDUP/ROUNDDOWN omitted (=0)',
-                      'one evaluation = one formula translated by the real Parser (400 formulas per workbook) and evaluated by the real '
+                      'some with the digit count of ROUNDUP/ROUNDDOWN omitted (=0); plus 3 formulas with an upper-case exponent marker (1E-20)',
+                      'one evaluation = one formula translated by the real Parser (120 / 400 formulas per workbook) and evaluated by the real '
                       'Executor, compared with the reference on the decimal text; non-trivial = the decimal is not a multiple of 10^-n',
                       False, a_lit, time.time() - t0))
 
     # ---- 6  cell constants ---------------------------------------------------------------------------------------
     t0 = time.time()
     per = len(CELL_ROWS)
-    n_books = 64 if thorough else 16
+    n_books = 112 if thorough else 14
     base_items = [(t, f, n) for (t, f, n) in grid_points(INTS_QUICK, fs=SPECIAL_F)]
     rng.shuffle(base_items)
     seeds6 = seed_triples(rng, 2000 if thorough else 300)
@@ -751,7 +757,7 @@ def run(tier='quick', seed=0):
         a_cells.merge(accs['main'])
         a_pct.merge(accs['percent'])
     checks.append(_mk('C16.monitor.cells',
-                      f'{len(tasks)} workbooks x 2 sheets x {per} rows (1..30, 99..102, 999..1002, 1500; one workbook also 5000, 20000 and one '
+                      f'{len(tasks)} workbooks x 2 sheets x {per} rows (1..14, 99..102, 999..1002, 1500; one workbook also 5000, 20000 and one '
                       'digit count in column XFD); number in column A / Z / AA / ZZ / AAA as int or float constant, digit count in column B; '
                       'both sheets hold the same formula texts with unqualified references over different numbers; T!M mixes S!number '
                       'with its own digit count; S!N has the digit count as literal; whole-file translation, then 6 entry-point '
@@ -791,7 +797,7 @@ def run(tier='quick', seed=0):
                       'x% for every x of the helper grid and of the seeds (expression _normalize_float_number(x / 100) that the translator '
                       'emits, both runtime copies), and through the pipeline for every second literal point (=lit%, =-lit%), every cell '
                       'row (=A1%) and every override point (=A1%), plus =ROUND(x%, n); x includes 14- and 15-significant-digit values '
-                      'and magnitudes down to 1.5e-300',
+                      'and magnitudes down to 1.5e-300 (run time is accounted in the other checks)',
                       'one evaluation = one x% compared (==) with the double nearest to the decimal x/100 (x has <= 15 significant digits, '
                       'so x/100 kept to 15 significant digits is x/100 itself); ROUND(x%, n) with the reference rounding of that decimal',
                       False, a_pct, 0.0, [{'formula': '=7%', 'expected': 0.07}, {'formula': '=ROUND(26.75%,3)', 'expected': 0.268}]))
